@@ -76,9 +76,12 @@ def sources_for(cls, rng=None, w=None):
                 out["raw"] = k.source
                 if reuse:
                     from xobjects.context import sort_classes
+                    empty_conf = rng.random() < 0.6
                     for c_ in sort_classes([cls]):
-                        c_._gen_c_decl({})  # what ContextCpu.build_kernels(compile=True) does for the cffi cdefs
-                        c_._gen_c_decl()    # ... and what a user asking for the declarations does (default configuration)
+                        if empty_conf:
+                            c_._gen_c_decl({})  # what ContextCpu.build_kernels(compile=True) does for the cffi cdefs
+                        else:
+                            c_._gen_c_decl()    # what a user asking for the declarations does (default configuration)
         else:
             _gpu_sources(cls, kd if reuse else None, out)
     return out
